@@ -247,6 +247,7 @@ theorem srcSimple_contract (fuel : Nat) (d : Data) (id : Nat) (chans : Int) (c c
     obtain ⟨oe, c1, _, h⟩ := h
     split at h
     · rw [pure_ok] at h; obtain ⟨h1, -⟩ := h; cases h1
+      exact ⟨Nat.zero_le _, Nat.zero_le _, hc.1.2⟩
     · simp only [bind_ok] at h
       obtain ⟨⟨o2, i2, d2⟩, c2, hp, h⟩ := h
       obtain ⟨_, c3, _, h⟩ := h
@@ -295,9 +296,9 @@ theorem closeAll_ok (o : Obj) (c : Ctx) : ∃ c', closeAll o c = .ok () c' ∧ c
   · exact repeatM_emit_ok _ _ _
   · exact ⟨c, rfl, rfl⟩
 
-/-- **`src_reset` on a converter without `RESET_ON_CLEAR` (ids 0, 1, 2) gives the object `src_new` gives**: any history,
+/-- **`src_reset` on a converter without `RESET_ON_CLEAR` gives the object `src_new` gives**: any history,
     any stored error (it is dropped), running or not; the engine instances are closed; return code 0. -/
-theorem reset_is_fresh (id chans : Nat) (fn : Bool) (o : Obj) (hcfg : o.cfg = cfgOf id) (hr : (cfgOf id).reset = false)
+theorem reset_is_fresh_of_flag (id chans : Nat) (fn : Bool) (o : Obj) (hcfg : o.cfg = cfgOf id) (hr : (cfgOf id).reset = false)
     (hch : o.chans = chans) (hfn : o.hasFn = fn) (hmax : o.maxIlen = 2 ^ 64 - 1) (hdead : o.dead = false) (c : Ctx) :
     ∃ c', srcReset (some o) c = .ok (some (fresh id chans fn), 0) c' ∧ c'.toks = c.toks := by
   obtain ⟨c1, h1, h2⟩ := closeAll_ok o c
